@@ -2,6 +2,10 @@
 # Entry point of every registered command: rebuilds the runner (cached) and executes it.
 cd "${VERIF_ROOT:-/verif}" || exit 2
 . ./env.sh
+# background runs on snapshots: VERIF_ROOT = snapshot of /verif, VERIF_REPO = snapshot of /repo
+if [ -n "$VERIF_REPO" ] && [ "$PWD" != "/verif" ]; then
+  go mod edit -replace "github.com/inbucket/inbucket/v3=$VERIF_REPO" || exit 2
+fi
 mkdir -p bin
 go build -o bin/verif ./cmd/verif || { echo "BROKEN: runner build failed" >&2; exit 2; }
 exec bin/verif "$@"
